@@ -74,6 +74,7 @@ TYPES = {
     "vstr": "( vec str )", "vvi": "( vec ( vec i64 ) )", "lstr": "( list str )", "lu32": "( list u32 )",
     "seti": "( set i64 )", "sets": "( set str )", "mapsi": "( map str i32 )", "mapiv": "( map i32 ( vec str ) )",
     "upi": "( up i32 )", "ups": "( up str )", "spin": "( sp %s )" % INNER,
+    "spi64": "( sp i64 )", "sps": "( sp str )", "upin": "( up %s )" % INNER,
     "vupi": "( vec ( up i32 ) )", "vups": "( vec ( up str ) )",
     "inner": INNER, "onlystr": ONLYSTR,
     "ptrs": "( agg 1 ( up str ) 2 ( up i32 ) 3 ( sp %s ) 4 ( vec ( up %s ) ) 5 ( sp %s ) 6 ( up %s ) 7 ( vec ( sp str ) ) )"
@@ -405,7 +406,7 @@ def kv(line):
         line += " "
     obs, _, mon = line.partition(" | ")
     d = {}
-    for w in re.finditer(r"(\w+)=((?:[01]:)?(?:\[.*?\](?= \w+=|$)|\S*))", obs):
+    for w in re.finditer(r"(\w+)=((?:[01]:)?(?:P )*(?:\[.*?\](?= \w+=|$)|\S*))", obs):
         d[w.group(1)] = w.group(2)
     m = dict(x.split("=") for x in mon.split() if "=" in x)
     return d, m
@@ -563,6 +564,11 @@ def main(argv):
                                  [0x80000000, 2 ** 32 - 1]])),
                  ("enums", show([127, 128, 2 ** 31 - 1, 0x80000000, 2 ** 63 - 1, 0x100000001, [], [0, 1 << 31], [],
                                  None, None, []]))]
+        # non-null smart pointers at top level and as scalar-pointee members (every presentation, incl. no limit)
+        fixed += [("upi", "P 8"), ("upi", "P -1"), ("spi64", "P 0"), ("spi64", "P -9223372036854775808"),
+                  ("ups", "P s6162"), ("sps", "P s00"), ("upin", "P [ 5 s61 ]"), ("spin", "P [ 0 s ]"),
+                  ("ptrs", "[ P s61 P 8 P [ 1 s62 ] [ P [ 2 s ] ] P [ s63 [ 1 ] ] P [ s [ 2 ] ] [ P s64 ] ]"),
+                  ("ptrs", "[ N P 0 N [ ] N N [ ] ]")]
         for name, val in fixed:
             vcases.append({"id": "v%d" % i, "type": name, "val": val})
             i += 1
@@ -629,21 +635,33 @@ def main(argv):
             chk.violate("routes-differ", "serialize_to_string / to_array_with_cached_size / to_coded_stream of a %s "
                         "produce different bytes (value %s)" % (name, c["val"][:200]), rep)
         if expect is not None:
+            top_vec = ty[0] == "vec"
             for p in ("p0", "p1", "p4", "p2", "p3", "p5"):
                 if p not in d:
                     continue
                 got = canon_res(ty, d.get(p))
-                if got != expect:
-                    if p in ("p2", "p3", "p5") and canon_res(ty, d.get("p0")) == expect:
+                if got == expect:
+                    continue
+                unlimited = p in ("p2", "p3", "p5")
+                # a known finding only if the model (= the code as it is) yields the same wrong result for the
+                # same structural reason; any other deviation from the round-trip value is a new failure
+                mres_p = canon_res(ty, m.get("rtu" if unlimited else "rt")) if m else None
+                same_as_model = mres_p is not None and mres_p == got
+                if unlimited and canon_res(ty, d.get("p0")) == expect:
+                    if same_as_model and top_vec:
                         sig = "unlimited-stream-toplevel-container-empty"
-                        what = ("parse_from_coded_stream of a top-level %s on a stream-backed coded stream without "
-                                "limit (presentation %s): %s instead of %s" % (name, p, (got or "")[:120], expect[:120]))
+                    elif has_kind(ty, ("up", "sp")) and not top_vec:
+                        sig = "unlimited-stream-smart-pointer-lost"
                     else:
-                        sig = classify_rt(name)
-                        what = ("round trip of a %s through presentation %s yields %s instead of %s"
-                                % (name, p, (got or "")[:160], expect[:160]))
-                    chk.violate(sig, what, rep)
-                    break
+                        sig = "unlimited-stream-roundtrip"
+                    what = ("parse_from_coded_stream of a %s on a stream-backed coded stream without limit "
+                            "(presentation %s) yields %s instead of %s (value %s)"
+                            % (name, p, (got or "")[:120], expect[:120], c["val"][:120]))
+                else:
+                    sig = classify_rt(name) if same_as_model else "roundtrip"
+                    what = ("round trip of a %s through presentation %s yields %s instead of %s"
+                            % (name, p, (got or "")[:160], expect[:160]))
+                chk.violate(sig, what, dict(rep, presentation=p))
         if m and "enc" in m:
             validated += 1
             hashy = has_kind(ty, ("set", "map"))
